@@ -351,6 +351,10 @@ pub fn h2_request(r: &mut Rng, adversarial: bool) -> Vec<u8> {
             settings.extend_from_slice(&v.to_be_bytes());
         }
     }
+    if adversarial && r.chance(1, 2) {
+        // settings a parser might (wrongly) remember beyond this connection: extreme per-connection limits
+        extreme_settings(r, &mut settings);
+    }
     b.extend(h2_frame(4, 0, 0, &settings));
     if r.chance(1, 2) {
         b.extend(h2_frame(8, 0, 0, &15663105u32.to_be_bytes()));
@@ -389,8 +393,22 @@ pub fn h2_request(r: &mut Rng, adversarial: bool) -> Vec<u8> {
     b
 }
 
+/// HEADER_TABLE_SIZE, ENABLE_PUSH, MAX_FRAME_SIZE, MAX_HEADER_LIST_SIZE at their extremes
+fn extreme_settings(r: &mut Rng, settings: &mut Vec<u8>) {
+    for (id, vals) in [(1u16, [0u32, 1, 4096]), (2, [0, 1, 1]), (5, [0, 1, 16384]), (6, [0, 1, 10])] {
+        if r.chance(1, 2) {
+            settings.extend_from_slice(&id.to_be_bytes());
+            settings.extend_from_slice(&r.pick(&vals).to_be_bytes());
+        }
+    }
+}
+
 pub fn h2_response(r: &mut Rng, adversarial: bool) -> Vec<u8> {
-    let mut b = h2_frame(4, 0, 0, &[]);
+    let mut ss = vec![];
+    if adversarial && r.chance(1, 2) {
+        extreme_settings(r, &mut ss);
+    }
+    let mut b = h2_frame(4, 0, 0, &ss);
     let mut ops = vec![HpackOp::Indexed(*r.pick(&[8usize, 13]))]; // :status 200 / 404
     ops.push(HpackOp::LitIncIdx(54, b"srv/1".to_vec())); // server
     if adversarial {
